@@ -450,3 +450,24 @@ def mpaths(prog, name_rx, depth=0, stop=None, crate=None):
         return None
     ps = mirsum.paths(prog, bs[0], depth=depth, stop=stop)
     return mirsum.fmt_paths(ps, prog) if ps is not None else None
+
+
+def borrow(rule, new_id, title, reason, only=None, floor=1):
+    """the clauses of another property's rule that this property also depends on, under this property's rule id: the
+    instances / violations whose site key matches `only` (regex) are re-labelled; the deciding code is shared"""
+    import re as _re
+    from report import Rule
+    r = Rule(new_id, title, reason, floor=floor)
+    rx = _re.compile(only) if only else None
+    old = rule.id.split(".")[-1]
+    new = new_id.split(".")[-1]
+    for i in rule.instances:
+        if rx is None or rx.search(i["site"]):
+            r.instances.append(dict(i))
+    for v in rule.violations:
+        if rx is None or rx.search(v.key):
+            key = v.key
+            if key.startswith(old + ":"):
+                key = new + ":" + key[len(old) + 1:]
+            r.viol(key, v.msg, file=v.file, line=v.line, **(v.detail or {}))
+    return r
